@@ -51,7 +51,10 @@ GEN_ITEMS = ["lab", "call", "set", "usevar", "ifused", "ifnused", "ifdef", "macr
              "macexp", "newpage", "message", "warning", "section", "shared", "rept", "data", "equfwd",
              # statements whose evaluation goes through library calls that leave errno set (number conversion at the
              # edge of the double range, probing for files that do not exist): report writers check errno
-             "float", "ifexist", "reptexist", "strfn"]
+             "float", "ifexist", "reptexist", "strfn",
+             # text substitution that starts in the middle of the file (#define, used at the head of the golden
+             # programs t_870c / t_f2mc16): state of one pass that must not reach the next one
+             "define"]
 
 
 def render_gen(items):
@@ -61,6 +64,7 @@ def render_gen(items):
     labs = [i for i, it in enumerate(items) if it[0] == "lab"]
     nl = len(labs)
     mac = False
+    defd = False
     sec = 0
     for i, it in enumerate(items):
         k = it[0]
@@ -104,6 +108,14 @@ def render_gen(items):
             L += ["\trept %d" % (a % 3 + 1), "\tdb var&15", "\tendm"]
         elif k == "data":
             L.append("\tdb %d,%d,%d" % (a & 255, (a >> 3) & 255, i & 255))
+        elif k == "define":
+            # the text in front of the directive must stay valid whichever way it is read: a register name
+            if not defd:
+                L += ["\tld b,%d" % (a & 127), "\tld d,(hl)", "#define b c", "#define d e", "\tld b,%d" % (a & 127),
+                      "\tld d,(hl)"]
+                defd = True
+            else:
+                L += ["\tld b,%d" % (a & 127), "\tld a,d"]
         elif k == "float":
             L.append("\t%s %s" % (["dd", "dq", "dq", "dd"][a % 4],
                                    ["1e-310", "4.94e-324,2e-320", "1.0e308,1e-308", "1e-45,1.5"][a % 4]))
